@@ -1,8 +1,8 @@
 """Params plug-in for C15 (Model/Sequence.v): see tools/gen_params.py.
 
 Read from src/engine/core/read/sequence/matcher.rs:
-  * which pointer the final `else` branch of match_preceded_by advances (`b_ptr += 1` in the pinned tree, `a_ptr += 1` in the
-    proposed repair fixes/C15-preceded-by-advance-a.diff)  -> seq_pb_else_advances_a;
+  * which pointer the final `else` branch of match_preceded_by advances (`a_ptr += 1` since fix 49473e7 = fixes/C15-preceded-by-advance-a.diff, `b_ptr += 1`
+    before it)  -> seq_pb_else_advances_a;
   * that the comparisons and pointer moves the model hard-codes are still the ones in the text (FOLLOWED BY: `ts_b >= ts_a`,
     a advances after the WHERE test whatever its result, else b advances; PRECEDED BY: `ts_b < ts_a`, scan `ts_next_b < ts_a`,
     `b_ptr = latest_b_ptr`; timestamps `ts as u64`, missing -> 0; groups sorted by earliest timestamp; truncate at the limit).
